@@ -277,6 +277,41 @@ def main():
                 check(rac, f"inplace-expr {iop} {a!r} {b!r}", f"{iop} on t = s+1 (s={a!r}) with {b!r}", g1, w1, sc2, f"MutableRef.__{iop}__")
                 check(rac, f"inplace-expr-update {iop} {a!r} {b!r}", f"{iop} on t = s+1 then s = 9", g2, w2, sc2, f"MutableRef.__{iop}__")
             rac.case((iop, "expr", repr(a), repr(b)), sample=dict(op=iop, on="expression", a=repr(a), b=repr(b)))
+    rac.section("inplace-chains", "two and three successive in-place updates with literals on a location defined by an expression (x = a; x OP= c1; "
+                "x OP= c2 [; x OP= c3]), values where the operation is not associative in floating point (1e16 + 1 + 1, 0.1 * 3 * 3, "
+                "1e-300 * 1e200 * 1e200): bit-for-bit what Python gives on the plain values, also after the source changed",
+                "4 operators x 4 value triples")
+    chains = [("iadd", (1e16, 1.0, 1.0, 1.0)), ("iadd", (0.1, 0.2, 0.3, -0.6)), ("imul", (0.1, 3, 3, 3)), ("imul", (1e-300, 1e200, 1e200, 1e-200)),
+              ("isub", (1e16, 1.0, 1.0, 1.0)), ("itruediv", (1.0, 3, 3, 3)), ("iadd", (1, 2, 3, 4)), ("imul", (2.5, 4, 0.5, 2))]
+    for iop, (a0, c1, c2, c3) in chains:
+        f = getattr(operator, iop[1:])
+        for n_ops, a1 in ((2, a0 * 2 if iop != "itruediv" else 7.0), (3, -a0)):
+            cs = (c1, c2, c3)[:n_ops]
+            d, m, r = fresh(dict(a=a0, x=0.0))
+            src = [f"d = dict(a={a0!r}, x=0.0); m = xdeps.Manager(); r = m.ref(d, 'd')", "r['x'] = r['a']"] + \
+                  [f"r['x'] {dict(iadd='+=', imul='*=', isub='-=', itruediv='/=')[iop]} {c!r}" for c in cs]
+            def py(a):
+                v = a
+                for c in cs:
+                    v = f(v, c)
+                return v
+            key = f"inplace-chain {iop} {a0!r} {cs!r}"
+            scr = hdr + "\n".join(src) + f"\nw1 = {a0!r}\nfor c in {cs!r}: w1 = operator.{iop[1:]}(w1, c)\nassert d['x'] == w1 and type(d['x']) is type(w1), (d['x'], w1)\n" \
+                f"r['a'] = {a1!r}\nw2 = {a1!r}\nfor c in {cs!r}: w2 = operator.{iop[1:]}(w2, c)\nassert d['x'] == w2 and type(d['x']) is type(w2), (d['x'], w2)\n"
+            rac.case(key, sample=dict(op=iop, start=a0, constants=cs))
+            try:
+                for line in src[1:]:
+                    exec(line, dict(r=r))
+                g1 = d["x"]
+                r["a"] = a1
+                g2 = d["x"]
+            except Exception as ex:      # noqa
+                rac.fail(key, f"{' ; '.join(src[1:])}: raised {type(ex).__name__}: {ex}", scr, f"MutableRef.__{iop}__")
+                continue
+            w1, w2 = py(a0), py(a1)
+            if not (g1 == w1 and type(g1) is type(w1) and g2 == w2 and type(g2) is type(w2)):
+                rac.fail(key, f"{' ; '.join(src[1:])}: x = {g1!r}, after a = {a1!r}: {g2!r}; Python on the plain values gives {w1!r} and {w2!r}", scr,
+                         f"MutableRef.__{iop}__")
     return rac.finish()
 
 
